@@ -18,7 +18,7 @@ ALL_VARIANTS = {"any", "number", "uint", "int", "address", "selector", "function
 
 
 def shard(shard_no, nshards, seed, tier, extra):
-    n_batches, n = (3, 1200) if tier == "quick" else (40, 3000)
+    n_batches, n = (8, 3000) if tier == "quick" else (200, 3000)
     res = common.Result()
     d = common.Driver("rel", shim=False)
     for b in range(n_batches):
